@@ -6,6 +6,7 @@ import FcpptModel.Model.C01.Env
 import FcpptModel.Model.C01.Vector
 import FcpptModel.Model.C15.Text
 import FcpptModel.Drv.C06
+import FcpptModel.Drv.C15
 /-!
 Driver for C01: the container / string / argument / file helpers of `Model/C01.lean`; scalar
 operations (`call`, `range1`, …) are delegated to the C06 driver (translated definitions).
@@ -419,6 +420,9 @@ def handle (toks : List String) : String :=
       let (o', r) := writeChars o (cs.map Char.toNat)
       b01 r ++ " s:" ++ str o'.content ++ " " ++ o'.bits
     | _, _ => "bad-op"
+  | ["nw", inp] =>
+    -- narrow_locale / widen_locale (the codecvt loop with its growing buffer): the C15 model is the reference
+    (match Fcppt.C15.Drv.handleUtf ["nw", inp] with | some r => r | none => "bad-op")
   | ["filesize", kind] =>
     match osAnswer kind with
     | some os => (match fileSize os with | some n => s!"some {n}" | none => "none")
